@@ -690,6 +690,66 @@ def check_faults(rep, rng, tier):
     return stats
 
 
+# --------------------------------------------------------------------------- re-declarations of the store in one process
+# The commit type is an argument of dds.set_store: the one of the LATEST declaration is in force, also when the same directories and the very
+# same dbutils object were declared before with another one (a notebook that re-runs its configuration cell with another argument).
+def redeclaration_cases(tier):
+    import itertools
+    seqs = [list(q) for n in (2, 3) for q in itertools.permutations(["full", "links_only", "none"], n)]
+    seqs += [["full", "full", "none"], ["none", "none", "full"], ["links_only", "full", "links_only", "none", "full"]]
+    cases = []
+    for i, q in enumerate(seqs):
+        kind = ["str", "bytes", "obj"][i % 3]
+        steps, plan = [{"keep": ["/r0", kind, "s0"]}], [("/r0", kind, "s0", q[0])]
+        for j, ct in enumerate(q[1:], 1):
+            steps += [{"set_commit_type": ct}, {"keep": [f"/r{j}", kind, f"s{j}"]}]
+            plan.append((f"/r{j}", kind, f"s{j}", ct))
+        steps += [{"load": p_} for p_, _, _, _ in plan] + [{"listing": True}]
+        cases.append({"commit_type": q[0], "steps": steps, "plan": plan, "declarations": q})
+    return cases
+
+
+def check_redeclarations(rep, tier):
+    cases = redeclaration_cases(tier)
+    with cf.ThreadPoolExecutor(max_workers=C.NPROC) as ex:
+        results = list(ex.map(run_case, cases))
+    for r in results:
+        c = r["case"]
+        rep.case("redeclare:" + ">".join(c["declarations"]))
+        if "error" in r:
+            rep.violation("harness-error:c19-redeclare", r["error"][-300:], r, no_input=True)
+            continue
+        out = r["out"]
+        replay = {"redeclaration_case": c, "out": out}
+        what = "store declared " + " then ".join(c["declarations"]) + " on the same directories and dbutils object in one process"
+        decl = [o for o in out if isinstance(o, str) and o.startswith("U:")]
+        if [o[2:] for o in decl] != [expected_mode(ct) for ct in c["declarations"]]:
+            rep.violation("redeclare:commit-type-not-in-force", f"{what}: the stores in use after each declaration have modes {[o[2:] for o in decl]}", replay)
+        listing = out[-1]["data_files"] if isinstance(out[-1], dict) else {}
+        loads = out[-1 - len(c["plan"]):-1]
+        expected_files = set()
+        for (p_, k, salt, ct), o in zip(c["plan"], loads):
+            mode, rec, obj = expected_mode(ct), "dbfs:/s/data/_dds_meta" + p_, "dbfs:/s/data" + p_
+            if mode == "NO_COMMIT":
+                if rec in listing or obj in listing:
+                    rep.violation("redeclare:none-writes-files", f"{what}: the keep of {p_!r} made while 'none' was in force wrote {rec if rec in listing else obj!r}", replay)
+                continue
+            expected_files |= {rec, obj} if mode == "FULL" else {rec}
+            if rec not in listing:
+                rep.violation("redeclare:record-missing:" + mode, f"{what}: no redirect record for {p_!r}, kept while {ct!r} was in force", replay)
+            elif o != "L:" + value_of(k, salt):
+                rep.violation("redeclare:load-wrong:" + mode, f"{what}: load({p_!r}) gave {str(o)[:60]} instead of {value_of(k, salt)[:60]}", replay)
+            if mode == "FULL" and (obj not in listing or (raw_of(k, salt) is not None and listing[obj] != raw_of(k, salt))):
+                rep.violation("redeclare:full-copy-missing", f"{what}: no byte-identical copy of the result at {obj!r}, kept while 'full' was in force", replay)
+            if mode == "LINK_ONLY" and obj in listing:
+                rep.violation("redeclare:links-only-copies-data", f"{what}: the keep of {p_!r} made while 'links_only' was in force wrote the data file {obj!r}", replay)
+        stray = sorted(f for f in listing if f not in expected_files)
+        if stray:
+            rep.violation("redeclare:stray-files", f"{what}: files below the data directory that no declaration in force asked for: {stray[:3]}", replay)
+    return {"declaration_sequences": len(cases)}
+
+
+
 def expected_mode(ct):
     n = (ct or "full").lower()
     return {"full": "FULL", "links_only": "LINK_ONLY", "link_only": "LINK_ONLY", "none": "NO_COMMIT", "no_commit": "NO_COMMIT"}[n]
@@ -719,7 +779,8 @@ def run(rep, tier, seed, proof_ok):
                 "keep of a present result at a second path, nested keeps committed by one call, nested keeps with one result present, evaluation that "
                 "loads, load, and a change taken back after the fault) the n-th dbutils.fs call (head / put / cp) of the evaluation fails, for EVERY n "
                 "(sampled for the nested scenarios in the quick tier), before its effect, after its effect, or leaving a truncated copy (cp; a put is taken to be atomic), with an "
-                "Exception or a BaseException; checks: a value the faulted call returns is the plain one; right after the fault no blob is reported "
+                "Exception or a BaseException; + re-declarations: sequences of 2..5 dds.set_store('dbfs') calls with different commit types on the SAME directories and the "
+                "same dbutils object in one process, a keep at a fresh path after each: every keep leaves what the declaration in force demands;  checks: a value the faulted call returns is the plain one; right after the fault no blob is reported "
                 "present (has_blob) unless fetch_blob returns its value, and load works for every record that exists; the same evaluation run again "
                 "without fault returns the plain value, leaves exactly the record / copy its commit type demands (copy byte-identical to blob and "
                 "result) and every path loads; expected values from plain execution of the module; distinct = distinct case")
@@ -841,9 +902,10 @@ def run(rep, tier, seed, proof_ok):
         if stray:
             rep.violation("stray-files:" + mode + (":path-alphabet" if fam else ""), f"files below the data directory that belong to no kept path under {mode}: {stray[:3]}" + sibs, replay)
     check_findings(rep)
+    rd = check_redeclarations(rep, tier)
     fd = check_faults(rep, random.Random(seed + 1), tier)
     hd = check_histories(rep, rng, 40 if tier == "quick" and proof_ok else 600, tier)
-    rep.extra["input_distribution"] = {"store_level_histories": hd, "fault_injection": fd, "cases": len(cases),
+    rep.extra["input_distribution"] = {"redeclarations": rd, "store_level_histories": hd, "fault_injection": fd, "cases": len(cases),
                                        "path_alphabet": {"classes_of_segment_variants": CLASSES, "variants_per_stem": N_VARIANTS, "stems": STEMS,
                                                          "keep_load_cases": len(alpha_cases), "of_them_whole_alphabet": sum(1 for c in alpha_cases if len(c["alphabet"]) > 8),
                                                          "paths_kept": sum(len(c["alphabet"]) for c in alpha_cases)}, "commit_types": [str(x) for x in DOCUMENTED + ENUM_NAMES], "legacy_references": [x[0] for x in LEGACY]}
@@ -867,5 +929,5 @@ def replay(path):
         print("model:", C.coq_eval_strings(PRELUDE, [coq_history(h)], label="c19r")[0][:1500])
         shutil.rmtree(base, ignore_errors=True)
         return 1
-    print(json.dumps(run_case(r["case"]).get("out"), indent=1)[:3000])
+    print(json.dumps(run_case(r.get("redeclaration_case") or r["case"]).get("out"), indent=1)[:3000])
     return 1
